@@ -1,5 +1,6 @@
 SPECIFICATION SpecSim
 CONSTANTS
+  FailingGov = FALSE
   MaxHeight = 8
   MaxTx = 16
   MaxFail = 4
